@@ -137,7 +137,7 @@ class C01(Prop):
             "children) chosen per case, every third case assembles a second description interleaved in the same process; what the objects "
             "hold after construction == what was put in, the bystander is untouched and round-trips too; path values incl. boundary "
             "spellings (trailing/doubled/leading slash, ./, blanks, non-ASCII, long, line feed); non-trivial = written successfully")
-    assumptions = ["json.load inverts json.dump on the documents the writer produces (stdlib; exercised by every case)",
+    assumptions = ["json.loads = Model/JsonParse.lean, json.dump = JsonText.render (both compared with CPython on every run); C01_bytes_parsed needs no parser hypothesis",
                    "typed model: attributes hold values of the validated types; the object graph is a forest whose parent pointers mirror "
                    "the dicts (every object handed to add() once, while unplaced: the Fresh histories of C11). An object placed twice "
                    "through a stale parent pointer (F26) is written by the library but is not a forest: corpus case, known finding",
@@ -677,6 +677,6 @@ PROP = C01()
 
 MANIFEST = dict(
     technique="Lean 4 proof over a typed model of the composeinfo writer/reader (nested-inductive variant forest, uid-keyed flattening with the setdefault refusal, fuel-based rebuild with every add()/validate() of the code), validators taken from the rule lists regenerated from the source; tie to the arena model of add() (C11) for the key convention; model tied by byte-exact differential correspondence (dumps text, parsed document, loads snapshot, second dump, refusal classes); round-trip oracle on the real library",
-    text="C01_readback: serialize ci = ok j -> deserialize j = ok (norm ci) for forests of any depth and width, any arches and paths, layered-product releases, base product, label/final; C01_fixpoint: serialize (norm ci) = ok j (same document), C01_bytes: dumps -> parse -> loads -> dumps gives the same text (json.load inverting the printer is an explicit hypothesis); C01_norm_id/C01_norm_sections/C01_norm_variant/C01_stored_path: norm is the identity on normal objects and performs only the documented normalisations. Only hypothesis: dict keys are the ids with no key twice (WellKeyed), and C01_api_wellkeyed proves it for the forest built by ANY history of default-key add() calls (arena model of C11), so C01_api_roundtrip has no forest hypothesis. C01_written_uids_distinct: a written well-keyed forest has pairwise different UIDs (the writer's 'Variant UID already exist' refusal, incl. the dashed top-level collision F14). Lemmas about the generated validators (UID alignment, dashless uid = id at top level, non-empty id, release type table, blank release/base product refused, empty label refused) stop compiling when the validator is removed.",
-    note="Modelled, not verified: json parser assumed to invert the printer (hypothesis of C01_bytes, exercised on every case); typed attribute domain (fields hold values of the validated types; bool respin, non-string paths are outside); the object graph is a forest whose parent pointers mirror the dicts (an object placed twice via a stale parent pointer, F26, is written by the library and re-read without the alias: known finding); str.lower on ASCII. Header versions < 1.0 are refused by the model reader (C05).",
+    text="C01_readback: serialize ci = ok j -> deserialize j = ok (norm ci) for forests of any depth and width, any arches and paths, layered-product releases, base product, label/final; C01_fixpoint: serialize (norm ci) = ok j (same document), C01_bytes_parsed: dumps -> the modelled CPython json.loads (key-sorted document) -> loads -> dumps gives the same text, with no parser hypothesis: C01_reader_order_independent (the reader returns the same object for the key-sorted document, any duplicate-free document it accepts) and C01_written_representable (the written document is JSON-representable, its only integer is the respin) are theorems; what is left is that int() accepts the respin's digits under the digit limit (nothing for limit 0 or <= 640 digits); C01_norm_id/C01_norm_sections/C01_norm_variant/C01_stored_path: norm is the identity on normal objects and performs only the documented normalisations. Only hypothesis: dict keys are the ids with no key twice (WellKeyed), and C01_api_wellkeyed proves it for the forest built by ANY history of default-key add() calls (arena model of C11), so C01_api_roundtrip has no forest hypothesis. C01_written_uids_distinct: a written well-keyed forest has pairwise different UIDs (the writer's 'Variant UID already exist' refusal, incl. the dashed top-level collision F14). Lemmas about the generated validators (UID alignment, dashless uid = id at top level, non-empty id, release type table, blank release/base product refused, empty label refused) stop compiling when the validator is removed.",
+    note="Modelled, not verified: CPython's json.loads is Model/JsonParse.lean (compared with the real parser by harness/json_diff.py), json.dump is JsonText.render (bytes compared on every case); typed attribute domain (fields hold values of the validated types; bool respin, non-string paths are outside); the object graph is a forest whose parent pointers mirror the dicts (an object placed twice via a stale parent pointer, F26, is written by the library and re-read without the alias: known finding); str.lower on ASCII. Header versions < 1.0 are refused by the model reader (C05).",
     ref="7/C01")
